@@ -304,6 +304,11 @@ def main(argv=None):
             return 1 if reproduced else 0
         t0 = time.time()
         acc = Acc()
+        # replay files of earlier runs are stale: start from an empty directory
+        rdir = ROOT / "replays" / prop
+        if rdir.exists():
+            for old_file in rdir.glob("*.json"):
+                old_file.unlink()
         cov, assumptions = mod.run(args.tier, seed, acc)
         wall = time.time() - t0
         # ---- classify violations
